@@ -89,8 +89,10 @@ class Ev:
                 self.res[(t, d)] = r
 
     # --- judgement of one (tree, dialect): list of (row index, expected, observed) oracle mismatches
-    def oracle_mismatches(self, t, d, limit=3):
+    def oracle_mismatches(self, t, d, limit=3, vals=None, exec_err=None):
         r = self.res[(t, d)]
+        if vals is not None or exec_err is not None:
+            r = dict(r, vals=vals, exec_err=exec_err)
         if r["rows"] is None or r["sql"] is None:
             return [], {}
         stats = {"rows": 0, "undefined": 0, "inexact_unjudged": 0, "judged": 0}
@@ -456,12 +458,70 @@ def run(ctx):
                                        "sql": r["sql"], "row": row, "expected": bad[0][1], "observed": bad[0][2], "found_in": G.sexp(orig), "suite": name})
     ctx.coverage_extra["minimal_failing_trees"] = len(minimal)
     concat_suite(ctx, ev)
+    alias_suite(ctx, ev, suites[0][1] + suites[1][1])
     ctx.obligation("correspondence: RQ tree = staticEval (expand tree)", total_bad["rq"] == 0, f"{total_bad['rq']} differences")
     ctx.obligation("correspondence: SQL text = sqlPrint (sqlite, generic)", total_bad["sql"] == 0, f"{total_bad['sql']} differences")
     ctx.obligation("correspondence: Model.Pratt parses what Model.Pratt prints", total_bad["reparse"] == 0, "")
     ctx.obligation("correspondence: sqlPrint = PrecU.pr npEmit on the operator fragment (ties theorem sql_print_parse_partial to the text printer)",
                    total_bad["prec"] == 0 and nprec > 0, f"{nprec} expressions in the fragment, {total_bad['prec']} differ")
     ctx.obligation("tie C: Lean sqlParse/evalS = SQLite on the emitted expressions", total_bad["evals"] == 0, f"{total_bad['evals']} expressions differ")
+
+
+def alias_suite(ctx, ev, trees):
+    """the same expressions with a compound operand NAMED first (`derive {d = <operand>} | select {v = <parent over d>}`): the back
+    end inlines the column definition into the SELECT (translate_cid), and the inlined text has to be parenthesised exactly like the
+    operand written in place. Expected: the SQL text of the in-place program (which the suites above tie to sqlPrint and judge against
+    the documented value); on a difference the values SQLite returns are judged against the documented values of the tree."""
+    D = ("col", 3)      # printed as `d`
+    items = []
+    for t in dict.fromkeys(trees):
+        kids = G.children(t)
+        if t[0] not in ("bin", "un"):
+            continue
+        for i, ch in enumerate(kids):
+            if ch[0] in LEAF or any(n == D for n in G.nodes(t)):
+                continue
+            parent = t[:len(t) - len(kids)] + tuple(D if j == i else k for j, k in enumerate(kids))
+            for d in DIALECTS:
+                r = ev.res.get((t, d))
+                if r is None or r["sql"] is None or r["rq"] is None:
+                    continue
+                prog = G.PRELUDE + "from t | derive {d = " + G.full_paren(ch) + "} | select {v = " + G.full_paren(parent) + "}"
+                items.append((t, d, i, prog, r))
+            break      # the first compound operand
+    ans = vh_batch([{"op": "compile", "prql": prog, "target": "sql." + d} for (_, d, _, prog, _) in items])
+    ndiff = nbad = 0
+    for (t, d, i, prog, r), a in zip(items, ans):
+        ctx.case(("alias", t, d), nontrivial=True)
+        ctx.count("suite=operand-named-first")
+        if "sql" not in a:
+            ndiff += 1
+            ctx.disagreement("operand named first", f"{d}: the program with the operand named first is rejected: {str(a)[:200]}", {"prql": prog, "dialect": d})
+            continue
+        mm = re.fullmatch(r"SELECT (.*) AS v FROM t", a["sql"], re.S)
+        txt = mm.group(1) if mm else a["sql"]
+        if txt == r["sql"]:
+            continue
+        if mm is None:
+            ctx.count("operand-named-first: the operand is materialised in a CTE (not compared)")
+            continue
+        vals, err = ev.oracle.run(a["sql"])
+        bad, st = ev.oracle_mismatches(t, d, vals=vals, exec_err=err)
+        inline_bad, _ = ev.oracle_mismatches(t, d)
+        ctx.count("operand-named-first: text differs from the in-place form")
+        if bad and not inline_bad:
+            nbad += 1
+            row = G.Oracle().rows[bad[0][0]] if isinstance(bad[0][0], int) else None
+            ctx.oracle_failure(None, f"{d}: operand named first: `{txt}` (in place: `{r['sql']}`): " +
+                               (f"row (a,b,c)={row}: documented value {bad[0][1]}, SQLite returns {bad[0][2]!r}" if row is not None else f"SQLite: {bad[0][2]}"),
+                               {"prql": prog, "dialect": d, "tree": G.sexp(t), "sql": a["sql"], "inline_sql": r["full_sql"], "row": row,
+                                "expected": bad[0][1], "observed": bad[0][2]})
+        elif not bad and not inline_bad and st.get("judged", 0) > 0:
+            ndiff += 1
+            ctx.disagreement("operand named first", f"{d}: `{txt}` differs from the in-place form `{r['sql']}` (values agree with the documented ones)",
+                             {"prql": prog, "dialect": d, "real": txt, "inline": r["sql"]})
+    ctx.obligation("correspondence: an operand named first (derive, then use) is inlined with the parentheses of the in-place operand",
+                   ndiff == 0 and nbad == 0 and len(items) > 0, f"{len(items)} programs, {ndiff} texts differ harmlessly, {nbad} change a value")
 
 
 def concat_suite(ctx, ev):
